@@ -2,6 +2,7 @@ package props
 
 import (
 	"fmt"
+	"hash/fnv"
 
 	"github.com/AsaiYusuke/jsonpath"
 	"pgregory.net/rapid"
@@ -55,8 +56,22 @@ func stepClean(s *gen.Step) bool {
 
 func retrieveSteps(steps []gen.Step, doc interface{}, st *Stats) ([]interface{}, error, string) {
 	text := gen.RenderSteps(steps).Text
+	h := fnv.New32a()
+	h.Write([]byte(text))
+	hv := h.Sum32() >> 9
+	if hv%5 == 0 {
+		// the same steps written without the leading "$" (where the grammar allows it) ...
+		text = gen.RenderStepsRootless(steps).Text
+	}
+	if hv%7 == 0 {
+		// ... and sometimes right after a Parse that was rejected half-way
+		poison := poisonPaths[int(hv/7)%len(poisonPaths)]
+		noteParse(poison, true, false)
+		_, _ = jsonpath.Parse(poison, BuildConfig(nil, true, false))
+	}
 	rec := &Recorder{}
 	cfg := BuildConfig(rec, true, false)
+	noteParse(text, true, false)
 	f, err := jsonpath.Parse(text, cfg)
 	if err != nil {
 		return nil, nil, fmt.Sprintf("generated path %q was rejected by Parse: %v", text, err)
